@@ -184,7 +184,7 @@ func newRig(o rigOpts) (*rig, error) {
 		tr.Kill()
 		return nil, fmt.Errorf("agent.Start: %w", err)
 	}
-	ln, err := net.Listen("tcp", "127.0.0.1:0")
+	ln, err := loopbackListen()
 	if err != nil {
 		a.Shutdown()
 		tr.Kill()
